@@ -29,6 +29,7 @@ import (
 	"github.com/Oneledger/protocol/data/governance"
 	"github.com/Oneledger/protocol/data/keys"
 	"github.com/Oneledger/protocol/data/rewards"
+	"github.com/Oneledger/protocol/external_apps/bid/bid_data"
 	"github.com/Oneledger/protocol/identity"
 	"github.com/Oneledger/protocol/serialize"
 	"github.com/Oneledger/protocol/utils"
@@ -54,10 +55,13 @@ const (
 	c02BVRewBal  = 10 // rwcum_balance_<validator>   matured, withdrawable reward claim
 	c02BVRewWd   = 11 // rwcum_withdrawn_<validator> total withdrawn so far
 	c02BVRewPend = 12 // rwz_<validator>_<interval>  rewards of an interval, not yet matured (sub = interval)
+	// bid app escrow: there is no escrow account - the locked value exists only as the amount of the ACTIVE offer of type "bid"
+	// with status "locked" of a conversation (extBidOffer_ACTIVE_<id>); owner = the conversation's bidder (sub = conversation)
+	c02BBidEscrow = 13
 )
 
 var c02BucketNames = []string{"balance", "fee", "stake", "unstaking", "withdrawable", "undelegating", "reward_claim", "reward_withdrawing", "proposal_fund", "delegated",
-	"validator_reward_matured", "validator_reward_withdrawn", "validator_reward_interval"}
+	"validator_reward_matured", "validator_reward_withdrawn", "validator_reward_interval", "bid_escrow"}
 
 const c02FeePoolOwner = "feepool"
 
@@ -79,6 +83,8 @@ type c02View struct {
 	Protocol   map[string]bool   // pool / protocol owners
 	PrefixHist map[string]int
 	Fin        map[string]bool // proposals in the finalized / finalize-failed stores
+	Convs      map[string][2]string // active bid conversation -> (bidder, asset owner)
+	BidCounter map[string]*big.Int  // active bid conversation -> amount of its active COUNTER offer (nothing locked)
 }
 
 var c02E18 = new(big.Int).Exp(big.NewInt(10), big.NewInt(18), nil)
@@ -121,7 +127,7 @@ func c02IsAddr(s string) bool {
 func c02IsEOAAddr(s string) bool { return len(s) == 43 && c02IsAddr(s) }
 
 func c02Decode(m map[string]string) *c02View {
-	v := &c02View{Led: map[c02Key]*big.Int{}, Side: map[c02Key]*big.Int{}, Counter: new(big.Int), Vals: map[string]string{}, Byz: map[string]bool{}, Protocol: map[string]bool{c02FeePoolOwner: true}, PrefixHist: map[string]int{}, Fin: map[string]bool{}}
+	v := &c02View{Led: map[c02Key]*big.Int{}, Side: map[c02Key]*big.Int{}, Counter: new(big.Int), Vals: map[string]string{}, Byz: map[string]bool{}, Protocol: map[string]bool{c02FeePoolOwner: true}, PrefixHist: map[string]int{}, Fin: map[string]bool{}, Convs: map[string][2]string{}, BidCounter: map[string]*big.Int{}}
 	add := func(k c02Key, a *big.Int) {
 		if old, ok := v.Led[k]; ok {
 			v.Led[k] = new(big.Int).Add(old, a)
@@ -267,6 +273,42 @@ func c02Decode(m map[string]string) *c02View {
 				continue
 			}
 			v.Side[c02Key{p[0], c02BVRewPend, "OLT", p[1]}] = a
+		case strings.HasPrefix(k, "extBidConv"):
+			// conversation records (active / succeed / cancelled / expired / rejected): no value
+			v.PrefixHist["extBidConv"]++
+			if strings.HasPrefix(k, "extBidConvActive") {
+				conv := &bid_data.BidConv{}
+				if serialize.GetSerializer(serialize.LOCAL).Deserialize([]byte(val), conv) == nil {
+					v.Convs[k[len("extBidConvActive"):]] = [2]string{conv.Bidder.String(), conv.AssetOwner.String()}
+				}
+			}
+		case strings.HasPrefix(k, "extBidOffer_INACTIVE_"):
+			v.PrefixHist["extBidOffer_INACTIVE_"]++
+			o := &bid_data.BidOffer{}
+			if err := serialize.GetSerializer(serialize.PERSISTENT).Deserialize([]byte(val), o); err != nil {
+				v.Bad = append(v.Bad, k)
+			} else if o.OfferType == bid_data.TypeBidOffer && o.AmountStatus == bid_data.BidAmountLocked {
+				v.Bad = append(v.Bad, k) // an inactive offer that still claims to hold a locked amount would be outside the ledger
+			}
+		case strings.HasPrefix(k, "extBidOffer_ACTIVE_"):
+			v.PrefixHist["extBidOffer_ACTIVE_"]++
+			id := k[len("extBidOffer_ACTIVE_"):]
+			o := &bid_data.BidOffer{}
+			if err := serialize.GetSerializer(serialize.PERSISTENT).Deserialize([]byte(val), o); err != nil {
+				v.Bad = append(v.Bad, k)
+				continue
+			}
+			if o.OfferType != bid_data.TypeBidOffer || o.AmountStatus != bid_data.BidAmountLocked {
+				v.BidCounter[id] = new(big.Int).Set(o.Amount.Value.BigInt())
+				continue // a counter offer: an asking price, nothing is locked
+			}
+			conv := &bid_data.BidConv{}
+			cv, ok := m["extBidConvActive"+id]
+			if !ok || serialize.GetSerializer(serialize.LOCAL).Deserialize([]byte(cv), conv) != nil {
+				v.Bad = append(v.Bad, k) // a locked amount without an active conversation: nobody could ever get it back
+				continue
+			}
+			add(c02Key{conv.Bidder.String(), c02BBidEscrow, o.Amount.Currency, "bid:" + id}, new(big.Int).Set(o.Amount.Value.BigInt()))
 		case k == "delegRwz_total_rewards":
 			v.PrefixHist["delegRwz_total_rewards"]++
 			a, ok := c02Amt(val)
@@ -437,7 +479,7 @@ func (in *c02Intern) sub(k c02Key) int64 {
 		return h
 	case c02BStake:
 		return int64(in.owner(k.Sub))
-	case c02BPropFund:
+	case c02BPropFund, c02BBidEscrow:
 		return int64(in.prop(k.Sub))
 	}
 	return 0
